@@ -215,6 +215,12 @@ def bad_circuit(n, cls):
         c["insts"][1]["a"] = n + 2
     elif cls == "input_idx_oob":
         c["insts"][1]["b"] = 5
+    elif cls == "input_party_eq_n":
+        c["insts"][1]["a"] = n
+    elif cls == "input_idx_eq_len":
+        c["insts"][1]["b"] = 2
+    elif cls == "dup_input":
+        c["insts"][1]["b"] = 0
     return c
 
 
